@@ -35,6 +35,18 @@ def install():
     import hypothesis.strategies as hs
     if hs.integers is not integers:
         hs.integers = integers
+    # Hypothesis follows every generated example with 'mutations' (spans replaced by copies of other spans / the
+    # pinned all-simplest example). Measured on three fixed-size st.binary draws: 33 % of all draws come back as the
+    # all-zero string with the mutator, 1.7 % without; for the composite case strategies used here that meant 20-30 %
+    # of the scalars were 0 and most late draws collapsed to their simplest value. Equal / aliased operands are
+    # constructed explicitly by the strategies, so the mutator is switched off (generation stays Hypothesis' own
+    # novel-prefix search, shrinking is untouched).
+    try:
+        import hypothesis.internal.conjecture.engine as _eng
+        if getattr(_eng.ConjectureRunner, "generate_mutations_from", None) is not None:
+            _eng.ConjectureRunner.generate_mutations_from = lambda self, data: None
+    except Exception:      # a different Hypothesis layout: keep its default behaviour
+        pass
 
 
 def digit(W):
